@@ -22,3 +22,14 @@ open Continuum
 #print axioms c19_old_aba_counterexample
 #print axioms c19_old_composite_counterexample
 #print axioms c20_count
+#print axioms inv_init
+#print axioms inv_step
+#print axioms inv_run
+#print axioms c03_chain
+#print axioms c11_pk_unique
+#print axioms c02_holds
+#print axioms c06_db_holds
+#print axioms boundary_after_end
+#print axioms Schema.c12_derive_ok
+#print axioms Schema.c13_no_column
+#print axioms Schema.include_beats_exclude
